@@ -10,7 +10,7 @@
    the node table (true for the linker method by construction, a precondition of the standalone
    function). *)
 From Coq Require Import ZArith List Bool QArith Permutation Lia.
-From Splinkv Require Import Base.Graph Model.CC Proofs.CCP Model.CCSkel Proofs.CCSkelP Proofs.CCRelabelP.
+From Splinkv Require Import Base.Graph Model.CC Proofs.CCP Model.CCSkel Proofs.CCSkelP Proofs.CCRelabelP Proofs.CCExtraP.
 Import ListNotations.
 Open Scope Z_scope.
 
@@ -121,9 +121,10 @@ Proof.
 Qed.
 Print Assumptions C05_id_is_smallest_member.
 
-(* distinct records are never conflated: for any record type and any injective id assignment
-   (the composite source_dataset/unique_id key) each record has exactly one output row *)
-Theorem C05_distinct_records_not_conflated :
+(* distinct records are never conflated GIVEN an injective id assignment (hypothesis): each record
+   then has exactly one output row.  Injectivity of the actual composite key of link jobs is the
+   subject of C05_composite_id_injective / C05_composite_ids_not_conflated below. *)
+Theorem C05_distinct_records_not_conflated_given_injective_id :
   forall (rec : Type) (id : rec -> Z) (recs : list rec) edges thr out,
     NoDup recs -> (forall r r', In r recs -> In r' recs -> id r = id r' -> r = r') ->
     closed_edges (map id recs) (thresholded thr edges) ->
@@ -148,7 +149,7 @@ Proof.
   repeat split; try (now apply good_output_row); try (now apply comp_min_eq_iff_conn).
   intros Heq. apply Hne. now apply Inj.
 Qed.
-Print Assumptions C05_distinct_records_not_conflated.
+Print Assumptions C05_distinct_records_not_conflated_given_injective_id.
 
 (* robustness: duplicate edges, reversed edges and self loops change neither the neighbours
    table (as a set) nor the result *)
@@ -322,3 +323,91 @@ Example C05_rows_example :
   cluster_at_threshold (rev ex_nodes) (rev ex_edges) (Some (Qmake 1 2))
   = Some [(7, 2); (4, 4); (2, 2); (6, 0); (5, 0); (3, 0); (1, 0); (0, 0)].
 Proof. vm_compute. reflexivity. Qed.
+
+(* ------------------------------------------------------------------------------------ *)
+(* Composite ids of link jobs: source_dataset || '-__-' || unique_id, compared as strings. *)
+From Coq Require Import String Ascii.
+Open Scope string_scope.
+
+(* injective when the source dataset names contain no '-' *)
+Theorem C05_composite_id_injective :
+  forall s1 u1 s2 u2,
+    has_char "-"%char s1 = false -> has_char "-"%char s2 = false ->
+    composite_id s1 u1 = composite_id s2 u2 -> s1 = s2 /\ u1 = u2.
+Proof. exact composite_id_inj. Qed.
+Print Assumptions C05_composite_id_injective.
+
+(* not injective in general: two different records with the same composite id (they would be one
+   node for the clustering).  Outside the property ("distinct records"); the harness never
+   generates the separator inside an id. *)
+Example C05_composite_id_ambiguous_refuted :
+  exists s1 u1 s2 u2, (s1, u1) <> (s2, u2) /\ composite_id s1 u1 = composite_id s2 u2.
+Proof. exists "a-__-b", "c", "a", "b-__-c". split; [discriminate|reflexivity]. Qed.
+
+(* "the separator occurs in neither part" is NOT enough either, because '-__-' overlaps itself *)
+Example C05_composite_id_separator_free_parts_still_ambiguous_refuted :
+  exists s1 u1 s2 u2, (s1, u1) <> (s2, u2) /\ composite_id s1 u1 = composite_id s2 u2 /\
+    forall x, In x [s1; u1; s2; u2] -> String.index 0 composite_sep x = None.
+Proof.
+  exists "a", "__-b", "a-__", "b". split; [discriminate|]. split; [reflexivity|].
+  intros x Hx. cbn in Hx. destruct Hx as [<-|[<-|[<-|[<-|[]]]]]; reflexivity.
+Qed.
+
+(* records of different source datasets that carry the same unique_id are never conflated:
+   records are (source_dataset, unique_id) pairs, node ids are key(composite id) for any injective
+   key (the harness uses the rank in byte order), dataset names contain no '-' *)
+Theorem C05_composite_ids_not_conflated :
+  forall (key : string -> Z) (recs : list (string * string)) edges thr out,
+    (forall a b, key a = key b -> a = b) ->
+    NoDup recs -> (forall r, In r recs -> has_char "-"%char (fst r) = false) ->
+    let id := fun r : string * string => key (composite_id (fst r) (snd r)) in
+    closed_edges (map id recs) (thresholded thr edges) ->
+    cluster_at_threshold (map id recs) edges thr = Some out ->
+    Permutation (map fst out) (map id recs) /\
+    forall r r', In r recs -> In r' recs -> r <> r' ->
+      exists c c', In (id r, c) out /\ In (id r', c') out /\ id r <> id r' /\
+        (c = c' <-> conn (map id recs) (thresholded thr edges) (id r) (id r')).
+Proof.
+  intros key recs edges thr out Kinj ND Dash id CL H.
+  apply (C05_distinct_records_not_conflated_given_injective_id (string * string) id recs edges thr out ND); auto.
+  intros [s u] [s' u'] Hr Hr' E. unfold id in E. apply Kinj in E. cbn in E.
+  destruct (composite_id_inj s u s' u' (Dash _ Hr) (Dash _ Hr') E) as [-> ->]. reflexivity.
+Qed.
+Print Assumptions C05_composite_ids_not_conflated.
+Close Scope string_scope.
+
+(* ------------------------------------------------------------------------------------ *)
+(* Outside the precondition closed_edges: an edge that mentions an id absent from the node table
+   (accepted by the standalone function; impossible for the linker method, whose nodes and edges
+   come from the same records).  Model and implementation agree (checked on DuckDB and SQLite): the
+   cluster id is then not a record, and two records can be joined through the absent id. *)
+Example C05_dangling_edge_refuted :
+  exists nodes edges out v c,
+    NoDup nodes /\ cluster_at_threshold nodes edges None = Some out /\ In (v, c) out /\ ~ In c nodes.
+Proof.
+  exists [1; 2; 3], [(0, 2, Qmake 1 1)], [(1, 1); (2, 0); (3, 3)], 2, 0.
+  split; [repeat constructor; cbn; intuition lia|]. split; [vm_compute; reflexivity|].
+  split; [cbn; auto|cbn; intuition lia].
+Qed.
+Example C05_dangling_edge_joins_records_refuted :
+  cluster_at_threshold [1; 2; 3] [(0, 2, Qmake 1 1); (0, 3, Qmake 1 1)] None = Some [(1, 1); (2, 0); (3, 0)] /\
+  ~ conn [1; 2; 3] (thresholded None [(0, 2, Qmake 1 1); (0, 3, Qmake 1 1)]) 2 3.
+Proof.
+  split; [vm_compute; reflexivity|]. intros C.
+  assert (M := comp_min_eq_iff_conn [1; 2; 3] (thresholded None [(0, 2, Qmake 1 1); (0, 3, Qmake 1 1)]) 2 3).
+  apply M in C; [|cbn; auto..]. vm_compute in C. discriminate C.
+Qed.
+
+(* ------------------------------------------------------------------------------------ *)
+(* clustering at an integer match weight w = clustering at its probability 2^w/(1+2^w) = keeping
+   the edges whose match weight log2(p/(1-p)) is at least w (p = 1: weight +inf) *)
+Theorem C05_weight_threshold_same_clusters :
+  forall nodes edges (w : Z),
+    (forall e, In e edges -> (0 <= snd e)%Q /\ (snd e <= 1)%Q) ->
+    thresholded (Some (weight_to_prob w)) edges = weight_edges w edges /\
+    cluster_at_threshold nodes edges (Some (weight_to_prob w)) = solve_cc nodes (weight_edges w edges).
+Proof.
+  intros nodes edges w H. pose proof (thr_edges_weight w edges H) as E. split; [exact E|].
+  unfold cluster_at_threshold. now rewrite E.
+Qed.
+Print Assumptions C05_weight_threshold_same_clusters.
